@@ -1,5 +1,5 @@
 #!/bin/sh
 # (re)extract the model and rebuild the OCaml runner
 set -e
-cd /verif/coq && ./mk.sh Run/Extract.vo 2>&1 | grep -v '^COQ' || true
-cd /verif/ocaml && cp ../coq/model.ml ../coq/model.mli . && ocamlfind ocamlopt -w -a -O3 model.mli model.ml driver.ml -o runner 2>&1 | grep -v "options are only" || true
+cd "$(dirname "$0")/coq" && ./mk.sh Run/Extract.vo 2>&1 | grep -v '^COQ' || true
+cd ../ocaml && cp ../coq/model.ml ../coq/model.mli . && ocamlfind ocamlopt -w -a -O3 model.mli model.ml driver.ml -o runner 2>&1 | grep -v "options are only" || true
